@@ -117,8 +117,14 @@ def gen_prefix(rng):
             now = b
         elif r < 0.75:
             ops.append(["var", [[rng.choice(c04.VARS), rng.choice(["0", "1", "5/2", "8"])]]])
-        elif r < 0.9:
+        elif r < 0.86:
             ops.append(["par", [[rng.choice(["k", "u", "w"]), rng.choice(["0", "1/2", "1", "2"])]]])
+        elif r < 0.9:
+            # round 4: scale_parameter, or a simulate whose solver reports failure (the protocol is then ignored)
+            if rng.random() < 0.7:
+                ops.append(["scale", [[rng.choice(["k", "u", "w"]), rng.choice(["2", "1/2", "0", "3/2"])]]])
+            else:
+                ops.append(["simF", _q(now + F(rng.randint(1, 8), 4)), 2])
         elif r < 0.95:
             ops.append(["clear"])
             now = F(0)
